@@ -70,9 +70,9 @@ Record fob := { fo_inner : fub; fo_ord : ord }.
 
 Definition fob_len (q : fob) : nat := (fub_len (fo_inner q) + length (oheap (fo_ord q)))%nat.
 
-(** [BinaryHeap::with_capacity(capacity - 1)] *)
-Definition heap_cap_for (cap : nat) : option nat :=
-  match cap with O => None | S c => Some c end.
+(** [BinaryHeap::with_capacity(capacity.saturating_sub(1))]; [None] would be the panic of
+    an underflowing subtraction *)
+Definition heap_cap_for (cap : nat) : option nat := Some (pred cap).
 
 Definition fob_new (cap : nat) (seed : Z) (w : world) : new_res fob * world :=
   let '(f, w) := fub_new cap w in
